@@ -50,9 +50,20 @@ func init() {
 			p.TxMean = 3 + 3*rng.Float64()
 			p.PMulti, p.POver, p.PConv = 0.6, 0.3, 0.3
 			p.POutage = 0.05
+			// a third of the worlds live in (or cross into) the averaging era with moving
+			// prices, where the yield of a conversion inside a batch is priced with
+			// min/max of spot and average (averagedBatches); no extra draw from rng
+			if p.Blocks%3 == 0 {
+				p.StartEra = eraPIP10 - (p.Blocks/3)%2
+				if p.PriceStep == 0 {
+					p.PriceStep = 150
+				}
+			}
 			return p
 		},
-		extra:      func(rng *rand.Rand, g *world.Gen) func(uint32, *world.BlockSpec) { return exactBatches(rng, g) },
+		extra: func(rng *rand.Rand, g *world.Gen) func(uint32, *world.BlockSpec) {
+			return chain2(exactBatches(rng, g), averagedBatches(g))
+		},
 		nontrivial: func(w *world.World, l *model.Ledger) []string { return fateKeys(l) },
 	})
 	// ------------------------------------------------------------ C04
